@@ -71,6 +71,8 @@ def run(tier, seed):
     extra = [(sp, dict(o, error_tol=0.0)) for sp, o in its[:: (11 if tier == "quick" else 3)]]
     extra += [(sp, {"rule": "TSLACK", "max_time": 20}) for sp in F.large_amount_specs() + F.mixed_wiring_specs()]
     extra += stepcheck.resumed_edit_items(("team-add-target",), ks=(1, 2, 3, 4, 5))
+    # a checkpoint written at step k and read back, into a new project and into the very object that wrote it, before the run goes on
+    extra += [(sp, dict(o, resume_from=k, resume_via_json=how)) for sp, o in its[:: (17 if tier == "quick" else 5)] for k in (1, 2) for how in (True, "same")]
     col.merge(stepcheck.explore(extra, MONS, 0, 0, seed=seed))
     meta = {
         "level": "model_checking",
